@@ -102,6 +102,7 @@ func newExplorer(p *Property, sc *Scenario, bound int, deadline time.Time, sampl
 		env.body()
 	}
 	e.End = func(s *mc.Sched) []mc.Violation {
+		env.finalize()
 		e.NoteOutcome(outcomeOf(sc, env.rec, s))
 		e.NoteOutcome("view:" + clientView(sc, env.rec))
 		if sampleSink != nil && len(*sampleSink) < 25 {
